@@ -41,6 +41,12 @@
 (* prior in force is the user's when one was given, else the default from    *)
 (* the parameter's own mode and bounds -- for either owner (InForce);        *)
 (* Passes = "second_blind" is the expected-counterexample variant.           *)
+(*                                                                         *)
+(* Arguments are inputs (round 3): bounds arrive in any container (tuple,    *)
+(* list, array, read-only array), the caller keeps the object and uses it    *)
+(* again; nothing is written to it (ArgsFrame; MC_Priors, MC_PriorHistory).  *)
+(* The mode of a parameter is text found whatever its case (ModeLookup).     *)
+(* Long-lived optimizers: spec/MC_PriorHistory.tla.                          *)
 (***************************************************************************)
 EXTENDS Integers, Sequences, FiniteSets, TLC, Json, Rat, SequencesExt
 
@@ -164,6 +170,37 @@ FromText(t) == IF Lookup(t.name) = "error" THEN "error"
 DefaultCall(mode, bounds) == IF mode = "log"
                              THEN [cls |-> "LogUniform", key1 |-> "lin_bounds", v1 |-> bounds, key2 |-> "", v2 |-> 0]
                              ELSE [cls |-> "Uniform", key1 |-> "bounds", v1 |-> bounds, key2 |-> "", v2 |-> 0]
+
+\* ------------------------------------------------------ arguments are inputs
+\* A pair of bounds may be handed over in any container the language has for two numbers, a mean / width as any
+\* floating-point scalar; the property speaks of the VALUES ("all bounds, means and widths").  The caller keeps the
+\* object it handed over and may use it again: for a second prior, or -- stored in the parameter table by
+\* set_boundary -- for the default prior of every later compile_params.  The state of such an object is the number of
+\* times log10 has been applied to its contents in place (0: as handed over); a constructor or compile_params that
+\* only reads its arguments leaves it at 0 (args = "read_only", the code).  args = "lin_in_place" is the
+\* expected-counterexample variant: linear-space bounds that arrive in a writable container are converted where they are.
+Containers == {"tuple", "list", "ndarray", "ndarray_readonly"}
+ScalarKinds == {"float", "numpy_float64"}
+Writable == {"list", "ndarray"}
+Corrupt == [kind |-> "Corrupt", a |-> Q(0), b |-> Q(0)]
+\* the caller's object after  cls(key1=<object>)  was evaluated once
+ArgAfter(args, c, ct, depth) == IF args = "lin_in_place" /\ c.key1 = "lin_bounds" /\ ct \in Writable THEN depth + 1 ELSE depth
+\* the prior built from an argument object in state depth (exact rationals describe depth 0 only)
+BuildAt(c, depth) == IF depth = 0 THEN Build(c) ELSE Corrupt
+\* two priors built one after the other from the SAME argument object
+BuildTwice(args, c, ct) == <<BuildAt(c, 0), BuildAt(c, ArgAfter(args, c, ct, 0))>>
+ArgsFrame(args, c) == \A ct \in Containers : /\ ArgAfter(args, c, ct, 0) = 0
+                                             /\ BuildTwice(args, c, ct) = <<Build(c), Build(c)>>
+
+\* ------------------------------------------------------------ mode as text
+\* The fitting mode of a parameter is given as text ("X:mode = log" in an input file, Optimizer.set_mode(name, "log"));
+\* like the class names of the priors it is found whatever the case of its letters
+ModeSpellings == [linear |-> {"linear", "Linear", "LINEAR", "liNEar"}, log |-> {"log", "Log", "LOG", "lOg"}]
+Modes == DOMAIN ModeSpellings
+ModeLookup(text) == IF \E m \in Modes : text \in ModeSpellings[m]
+                    THEN CHOOSE m \in Modes : text \in ModeSpellings[m] ELSE "error"
+\* ten to an integer power as an exact rational (bounds of a parameter that is fitted in either mode)
+P10(e) == IF e >= 0 THEN Q(Pow(10, e)) ELSE R(1, Pow(10, 0 - e))
 
 \* ------------------------------------------------- where the fitted parameter lives
 \* A fitting parameter is owned by the forward model or by the observation (a BaseSpectrum that declares @fitparam
